@@ -1,2 +1,1326 @@
-(* C08 — stub *)
-From Zap Require Import Base.Wire C08.Model.
+(* C08 — proofs.  Part 1: triples for the primitives; part 2: every operation computes its
+   specification under every adversary; part 3: histories and schedules; part 4: the tie of
+   the model's acquire/release code to the generated facts; part 5: wire. *)
+From Coq Require Import List ZArith Bool Arith Lia.
+From Coq.Strings Require Import Byte.
+Import ListNotations.
+From Zap Require Import Base.Wire Enc.Bytes Enc.Decimal Enc.Fields Enc.JsonEnc.
+From Zap Require Import C08.Hygiene C08.Model C08.Safe.
+Local Open Scope list_scope.
+Local Open Scope nat_scope.
+
+(* ------------------------------------------------------------------ *)
+(* part 1: triples                                                    *)
+(* ------------------------------------------------------------------ *)
+Definition ids (s : store) : list id := map b_id s.
+Definition mk (i : id) (bs : bytes) : bufobj := {| b_id := i; b_bs := bs; b_pool := true |}.
+
+Definition msafe {A} (m : M A) (ow : list id) (s : store) (Q : list id -> A -> store -> Prop) : Prop :=
+  safe (m s) ow (fun ow' r => Q ow' (fst r) (snd r)).
+
+Lemma msafe_bind {A B} (m : M A) (f : A -> M B) ow s Q :
+  msafe m ow s (fun ow' a s' => msafe (f a) ow' s' Q) -> msafe (mbind m f) ow s Q.
+Proof.
+  unfold msafe, mbind. intros H. eapply safe_bind; [exact H|]. intros ow' a Ha. exact Ha.
+Qed.
+Lemma msafe_ret {A} (a : A) ow s (Q : list id -> A -> store -> Prop) : Q ow a s -> msafe (ret a) ow s Q.
+Proof. intros H. exact H. Qed.
+Lemma msafe_weaken {A} (m : M A) ow s (Q1 Q2 : list id -> A -> store -> Prop) :
+  msafe m ow s Q1 -> (forall ow' a s', Q1 ow' a s' -> Q2 ow' a s') -> msafe m ow s Q2.
+Proof. unfold msafe. intros H HQ. eapply safe_weaken; [exact H|]. intros ow' r Hr. apply HQ. exact Hr. Qed.
+
+Lemma find_buf_id i s b : find_buf i s = Some b -> b_id b = i.
+Proof.
+  induction s as [|x s IH]; cbn [find_buf]; [discriminate|].
+  destruct (Nat.eqb (b_id x) i) eqn:E; [|exact IH].
+  intros [= <-]. apply Nat.eqb_eq. exact E.
+Qed.
+Lemma find_buf_in i s b : find_buf i s = Some b -> In i (ids s).
+Proof.
+  induction s as [|x s IH]; cbn [find_buf ids map]; [discriminate|].
+  destruct (Nat.eqb (b_id x) i) eqn:E.
+  - intros _. left. apply Nat.eqb_eq. exact E.
+  - intros H. right. apply IH. exact H.
+Qed.
+
+Lemma deref_ok i ow s (Q : list id -> id -> store -> Prop) : Q ow i s -> msafe (deref (Some i)) ow s Q.
+Proof. intros H. exact H. Qed.
+Lemma buf_read_ok i b ow s (Q : list id -> bytes -> store -> Prop) :
+  find_buf i s = Some b -> Q ow (b_bs b) s -> msafe (buf_read i) ow s Q.
+Proof. unfold msafe, buf_read. intros -> H. exact H. Qed.
+Lemma buf_upd_ok i f b ow s (Q : list id -> unit -> store -> Prop) :
+  find_buf i s = Some b -> Q ow tt (set_buf i (f (b_bs b)) s) -> msafe (buf_upd i f) ow s Q.
+Proof. unfold msafe, buf_upd. intros -> H. exact H. Qed.
+Lemma buf_get_ok ow s (Q : list id -> id -> store -> Prop) :
+  (forall i, ~ In i ow -> Q (i :: ow) i (mk i [] :: s)) -> msafe buf_get ow s Q.
+Proof.
+  unfold msafe, buf_get. cbn [safe]. intros H b _ Hf. cbn [fst snd]. apply H. exact Hf.
+Qed.
+Lemma buf_free_ok i b ow s (Q : list id -> unit -> store -> Prop) :
+  find_buf i s = Some b -> b_pool b = true -> In i ow ->
+  Q (remove Nat.eq_dec i ow) tt (del_buf i s) -> msafe (buf_free i) ow s Q.
+Proof.
+  unfold msafe, buf_free. intros Hf Hp Hi H. rewrite Hf, Hp. cbn [safe].
+  pose proof (find_buf_id _ _ _ Hf) as Hid.
+  split; [exact I|]. unfold owns, own_del. cbn [buf_id]. rewrite Hid. split; [exact Hi|exact H].
+Qed.
+Lemma getp_ok (p : pid) ow s (Q : list id -> pty p -> store -> Prop) :
+  buf_id p = (fun _ => None) ->
+  (forall o, clean p o -> Q ow o s) -> msafe (getp p) ow s Q.
+Proof.
+  unfold msafe, getp. cbn [safe]. intros Hb H o Hc _. unfold own_add. rewrite Hb. cbn [fst snd]. apply H. exact Hc.
+Qed.
+Lemma putp_ok (p : pid) (o : pty p) ow s (Q : list id -> unit -> store -> Prop) :
+  buf_id p = (fun _ => None) ->
+  clean p o -> Q ow tt s -> msafe (putp p o) ow s Q.
+Proof.
+  unfold msafe, putp. cbn [safe]. intros Hb Hc H. unfold owns, own_del. rewrite Hb. split; [exact Hc|split;[exact I|exact H]].
+Qed.
+
+(* ------------------------------------------------------------------ *)
+(* part 2: the encoder                                                *)
+(* ------------------------------------------------------------------ *)
+(* the operation owns the buffers of its store, each once *)
+Definition sok (ow : list id) (s : store) : Prop := NoDup (ids s) /\ incl (ids s) ow.
+
+(* where an encoder's buffers are: buf (i) on top of the untouched rest s0, with the
+   reflection buffer above it once it has been allocated *)
+Inductive jshape (j : jenc) (i : id) (bs : bytes) (s0 s : store) : Prop :=
+| js_plain : j_rbuf j = None -> j_renc j = None -> s = mk i bs :: s0 -> jshape j i bs s0 s
+| js_refl : forall r rb, j_rbuf j = Some r -> j_renc j = Some r -> r <> i ->
+            s = mk r rb :: mk i bs :: s0 -> jshape j i bs s0 s.
+
+Definition jstatic (j j' : jenc) : Prop :=
+  j_cfg j' = j_cfg j /\ j_buf j' = j_buf j /\ j_spaced j' = j_spaced j.
+Lemma jstatic_refl j : jstatic j j. Proof. repeat split. Qed.
+Lemma jstatic_trans a b c : jstatic a b -> jstatic b c -> jstatic a c.
+Proof. intros [H1 [H2 H3]] [H4 [H5 H6]]. repeat split; congruence. Qed.
+Lemma jstatic_set_ns j n : jstatic j (set_ns j n). Proof. repeat split. Qed.
+
+Lemma neq_eqb a b : a <> b -> Nat.eqb a b = false.
+Proof. intros H. apply Nat.eqb_neq. exact H. Qed.
+
+Lemma jshape_find j i bs s0 s : jshape j i bs s0 s -> find_buf i s = Some (mk i bs).
+Proof.
+  intros [Hb He ->|r rb Hb He Hn ->]; cbn [find_buf mk b_id].
+  - rewrite Nat.eqb_refl. reflexivity.
+  - rewrite (neq_eqb _ _ Hn), Nat.eqb_refl. reflexivity.
+Qed.
+Lemma jshape_set j i bs bs' s0 s : jshape j i bs s0 s -> jshape j i bs' s0 (set_buf i bs' s).
+Proof.
+  intros [Hb He ->|r rb Hb He Hn ->]; cbn [set_buf mk b_id b_pool].
+  - rewrite Nat.eqb_refl. apply js_plain; auto.
+  - rewrite (neq_eqb _ _ Hn), Nat.eqb_refl. eapply js_refl; eauto.
+Qed.
+Lemma ids_set_buf i x s : ids (set_buf i x s) = ids s.
+Proof.
+  induction s as [|b s IH]; [reflexivity|]. cbn [set_buf]. destruct (Nat.eqb (b_id b) i) eqn:E.
+  - cbn [ids map b_id]. apply Nat.eqb_eq in E. rewrite E. reflexivity.
+  - cbn [ids map]. f_equal. exact IH.
+Qed.
+Lemma sok_set ow i x s : sok ow s -> sok ow (set_buf i x s).
+Proof. unfold sok. rewrite ids_set_buf. auto. Qed.
+Lemma jshape_jstatic j j' i bs s0 s :
+  j_rbuf j' = j_rbuf j -> j_renc j' = j_renc j -> jshape j i bs s0 s -> jshape j' i bs s0 s.
+Proof.
+  intros H1 H2 [Hb He ->|r rb Hb He Hn ->].
+  - apply js_plain; congruence.
+  - eapply js_refl; eauto; congruence.
+Qed.
+
+(* enc.buf.<append> *)
+Lemma jbuf_ok j f i bs s0 s ow (Q : list id -> unit -> store -> Prop) :
+  j_buf j = Some i -> jshape j i bs s0 s -> sok ow s ->
+  (forall s', jshape j i (f bs) s0 s' -> sok ow s' -> Q ow tt s') ->
+  msafe (jbuf j f) ow s Q.
+Proof.
+  intros Hb Hs Hok HQ. unfold jbuf. rewrite Hb. apply msafe_bind. apply deref_ok.
+  eapply buf_upd_ok; [eapply jshape_find; exact Hs|]. cbn [b_bs mk].
+  apply HQ; [eapply jshape_set; exact Hs | apply sok_set; exact Hok].
+Qed.
+
+Lemma add_string_ok j k v i bs s0 s ow (Q : list id -> unit -> store -> Prop) :
+  j_buf j = Some i -> jshape j i bs s0 s -> sok ow s ->
+  (forall s', jshape j i (p_add_string (j_spaced j) k v bs) s0 s' -> sok ow s' -> Q ow tt s') ->
+  msafe (Model.add_string j k v) ow s Q.
+Proof. intros Hb Hs Hok HQ. unfold Model.add_string. eapply jbuf_ok; eauto. Qed.
+
+Lemma jshape_set_ns j n i bs s0 s : jshape j i bs s0 s -> jshape (set_ns j n) i bs s0 s.
+Proof. apply jshape_jstatic; reflexivity. Qed.
+
+Lemma close_ns_ok j i bs s0 s ow (Q : list id -> jenc -> store -> Prop) :
+  j_buf j = Some i -> jshape j i bs s0 s -> sok ow s ->
+  (forall s', jshape (set_ns j 0) i (fst (p_close (bs, j_ns j))) s0 s' -> sok ow s' -> Q ow (set_ns j 0) s') ->
+  msafe (Model.close_ns j) ow s Q.
+Proof.
+  intros Hb Hs Hok HQ. unfold Model.close_ns. apply msafe_bind.
+  eapply jbuf_ok; eauto. intros s' Hs' Hok'. apply msafe_ret.
+  apply HQ; auto. apply jshape_set_ns. exact Hs'.
+Qed.
+
+Lemma obj_open_ok j i bs s0 s ow (Q : list id -> jenc -> store -> Prop) :
+  j_buf j = Some i -> jshape j i bs s0 s -> sok ow s ->
+  (forall s', jshape (set_ns j 0) i (fst (p_obj_open (j_spaced j) (bs, j_ns j))) s0 s' -> sok ow s' -> Q ow (set_ns j 0) s') ->
+  msafe (obj_open j) ow s Q.
+Proof.
+  intros Hb Hs Hok HQ. unfold obj_open. apply msafe_bind.
+  eapply jbuf_ok; eauto. intros s' Hs' Hok'. apply msafe_ret.
+  apply HQ; auto. apply jshape_set_ns. exact Hs'.
+Qed.
+
+Lemma obj_close_ok old j i bs s0 s ow (Q : list id -> jenc -> store -> Prop) :
+  j_buf j = Some i -> jshape j i bs s0 s -> sok ow s ->
+  (forall s', jshape (set_ns j old) i (fst (p_obj_close old (bs, j_ns j))) s0 s' -> sok ow s' -> Q ow (set_ns (set_ns j 0) old) s') ->
+  msafe (obj_close old j) ow s Q.
+Proof.
+  intros Hb Hs Hok HQ. unfold obj_close. apply msafe_bind.
+  eapply jbuf_ok; eauto. intros s1 Hs1 Hok1.
+  apply msafe_bind. eapply close_ns_ok; eauto.
+  intros s2 Hs2 Hok2. apply msafe_ret.
+  apply HQ; auto. eapply jshape_jstatic; [| |exact Hs2]; reflexivity.
+Qed.
+
+Lemma set_ns_id j a : set_ns (set_ns j a) (j_ns j) = j.
+Proof. destruct j; reflexivity. Qed.
+Lemma set_ns_id2 j a b : set_ns (set_ns (set_ns j a) b) (j_ns j) = j.
+Proof. destruct j; reflexivity. Qed.
+
+Lemma p_err_array_ns sp b es : forall s, snd (p_err_array sp b es s) = snd s.
+Proof. induction es as [|e r IH]; intros s; cbn [p_err_array]; [reflexivity|]. rewrite IH. reflexivity. Qed.
+
+Lemma err_array_core_ok es : forall j i bs s0 s ow (Q : list id -> jenc -> store -> Prop),
+  j_buf j = Some i -> jshape j i bs s0 s -> sok ow s ->
+  (forall s', jshape j i (fst (p_err_array (j_spaced j) true es (bs, j_ns j))) s0 s' -> sok ow s' -> Q ow j s') ->
+  msafe (err_array_core j es) ow s Q.
+Proof.
+  induction es as [|e r IH]; intros j i bs s0 s ow Q Hb Hs Hok HQ; cbn [err_array_core].
+  - apply msafe_ret. apply HQ; assumption.
+  - apply msafe_bind. apply getp_ok; [reflexivity|]. intros el _.
+    apply msafe_bind. eapply obj_open_ok; eauto. intros s1 Hs1 Hok1.
+    apply msafe_bind. cbn [ee_err]. apply msafe_bind.
+    eapply add_string_ok; [exact Hb|exact Hs1|exact Hok1|]. intros s2 Hs2 Hok2.
+    apply msafe_ret. apply msafe_bind.
+    eapply obj_close_ok; [exact Hb|exact Hs2|exact Hok2|]. intros s3 Hs3 Hok3.
+    apply msafe_bind. apply putp_ok; [reflexivity|exact I|].
+    rewrite set_ns_id2.
+    eapply IH; [exact Hb| |exact Hok3|].
+    + eapply jshape_jstatic; [| |exact Hs3]; reflexivity.
+    + intros s' Hs' Hok'. apply HQ; [|exact Hok']. cbn [p_err_array]. exact Hs'.
+Qed.
+
+Lemma err_array_zap_ok es : forall j i bs s0 s ow (Q : list id -> jenc -> store -> Prop),
+  j_buf j = Some i -> jshape j i bs s0 s -> sok ow s ->
+  (forall s', jshape j i (fst (p_err_array (j_spaced j) true es (bs, j_ns j))) s0 s' -> sok ow s' -> Q ow j s') ->
+  msafe (err_array_zap j es) ow s Q.
+Proof.
+  induction es as [|e r IH]; intros j i bs s0 s ow Q Hb Hs Hok HQ; cbn [err_array_zap].
+  - apply msafe_ret. apply HQ; assumption.
+  - apply msafe_bind. apply getp_ok; [reflexivity|]. intros el _.
+    apply msafe_bind. eapply obj_open_ok; eauto. intros s1 Hs1 Hok1.
+    apply msafe_bind. cbn [ee_err]. apply msafe_bind.
+    eapply add_string_ok; [exact Hb|exact Hs1|exact Hok1|]. intros s2 Hs2 Hok2.
+    apply msafe_ret. apply msafe_bind.
+    eapply obj_close_ok; [exact Hb|exact Hs2|exact Hok2|]. intros s3 Hs3 Hok3.
+    apply msafe_bind. apply putp_ok; [reflexivity|exact I|].
+    rewrite set_ns_id2.
+    eapply IH; [exact Hb| |exact Hok3|].
+    + eapply jshape_jstatic; [| |exact Hs3]; reflexivity.
+    + intros s' Hs' Hok'. apply HQ; [|exact Hok']. cbn [p_err_array]. exact Hs'.
+Qed.
+
+Lemma trim_nl_snoc txt : trim_nl (txt ++ [NL]) = txt.
+Proof. unfold trim_nl. rewrite rev_app_distr. cbn [rev app]. cbn. apply rev_involutive. Qed.
+
+Lemma sok_cons ow s r bs : sok ow s -> ~ In r ow -> sok (r :: ow) (mk r bs :: s).
+Proof.
+  intros [Hn Hi] Hr. split; cbn [ids map mk b_id].
+  - constructor; [|exact Hn]. intros H. apply Hr. apply Hi. exact H.
+  - intros x [<-|Hx]; [left; reflexivity|right; apply Hi; exact Hx].
+Qed.
+Lemma sok_weaken_cons ow s r : sok ow s -> sok (r :: ow) s.
+Proof. intros [Hn Hi]. split; [exact Hn|]. intros x Hx. right. apply Hi. exact Hx. Qed.
+
+Definition refl_res (r : rv) : sum bytes bytes :=
+  match r with RNil => inl s_null | ROk txt => inl txt | RErr m => inr m end.
+
+Lemma jshape_i_in j i bs s0 s : jshape j i bs s0 s -> In i (ids s).
+Proof. intros H. eapply find_buf_in. eapply jshape_find. exact H. Qed.
+
+Lemma sok_ids ow s s' : ids s = ids s' -> sok ow s -> sok ow s'.
+Proof. unfold sok. intros ->. auto. Qed.
+
+Ltac fb := cbn [find_buf mk b_id]; rewrite ?Nat.eqb_refl; reflexivity.
+
+(* resetReflectBuf *)
+Lemma reset_reflect_ok j i bs s0 s ow (Q : list id -> jenc -> store -> Prop) :
+  jshape j i bs s0 s -> sok ow s ->
+  (forall ow' j1 r1, jstatic j j1 -> j_ns j1 = j_ns j -> j_rbuf j1 = Some r1 -> j_renc j1 = Some r1 ->
+                     r1 <> i -> sok ow' (mk r1 [] :: mk i bs :: s0) ->
+                     Q ow' j1 (mk r1 [] :: mk i bs :: s0)) ->
+  msafe (match j_rbuf j with
+         | None => b <- buf_get ;; ret (set_refl j (Some b) (Some b))
+         | Some b => buf_upd b (fun _ => []) ;;; ret j
+         end) ow s Q.
+Proof.
+  intros Hs Hok HQ.
+  destruct Hs as [Hrb Hre ->|r1 rb Hrb Hre Hne ->]; rewrite Hrb.
+  - apply msafe_bind. apply buf_get_ok. intros r1 Hfresh. apply msafe_ret.
+    assert (Hne : r1 <> i).
+    { intros ->. apply Hfresh. apply (proj2 Hok). cbn [ids map mk b_id]. left. reflexivity. }
+    apply HQ; try reflexivity; auto.
+    + repeat split.
+    + apply sok_cons; assumption.
+  - apply msafe_bind. eapply buf_upd_ok; [fb|].
+    cbn [set_buf mk b_id b_bs b_pool]. rewrite Nat.eqb_refl. apply msafe_ret.
+    apply HQ; auto using jstatic_refl.
+Qed.
+
+Lemma encode_reflected_ok r j i bs s0 s ow (Q : list id -> jenc * sum bytes bytes -> store -> Prop) :
+  j_buf j = Some i -> jshape j i bs s0 s -> sok ow s ->
+  (forall ow' j1 s', jstatic j j1 -> j_ns j1 = j_ns j -> jshape j1 i bs s0 s' -> sok ow' s' ->
+                     Q ow' (j1, refl_res r) s') ->
+  msafe (encode_reflected j r) ow s Q.
+Proof.
+  intros Hb Hs Hok HQ.
+  destruct r as [|txt|msg]; cbn [encode_reflected].
+  - apply msafe_ret. cbn [refl_res]. apply HQ; auto using jstatic_refl.
+  - apply msafe_bind. eapply reset_reflect_ok; [exact Hs|exact Hok|].
+    intros ow1 j1 r1 Hst Hns Hrb Hre Hne Hok1.
+    rewrite Hre, Hrb. apply msafe_bind. apply deref_ok.
+    apply msafe_bind. eapply buf_upd_ok; [fb|].
+    cbn [set_buf mk b_id b_bs b_pool]. rewrite Nat.eqb_refl.
+    apply msafe_bind. apply deref_ok.
+    apply msafe_bind. eapply buf_upd_ok; [fb|].
+    cbn [set_buf mk b_id b_bs b_pool app]. rewrite Nat.eqb_refl, trim_nl_snoc.
+    apply msafe_bind. eapply buf_read_ok; [fb|].
+    cbn [b_bs]. apply msafe_ret. cbn [refl_res].
+    apply HQ; auto.
+    eapply js_refl; eauto; reflexivity.
+  - apply msafe_bind. eapply reset_reflect_ok; [exact Hs|exact Hok|].
+    intros ow1 j1 r1 Hst Hns Hrb Hre Hne Hok1.
+    apply msafe_ret. cbn [refl_res]. apply HQ; auto. eapply js_refl; eauto; reflexivity.
+Qed.
+
+(* induction principle for the nested field type *)
+Section pf_induction.
+  Variable P : pf -> Prop.
+  Hypothesis HStr : forall k v, P (PStr k v).
+  Hypothesis HRaw : forall k v, P (PRaw k v).
+  Hypothesis HNs : forall k, P (PNs k).
+  Hypothesis HRefl : forall k r, P (PRefl k r).
+  Hypothesis HErr : forall k b c, P (PErr k b c).
+  Hypothesis HErrs : forall k es, P (PErrs k es).
+  Hypothesis HObj : forall k calls r, Forall P calls -> P (PObj k calls r).
+  Fixpoint pf_ind' (f : pf) : P f :=
+    match f with
+    | PStr k v => HStr k v
+    | PRaw k v => HRaw k v
+    | PNs k => HNs k
+    | PRefl k r => HRefl k r
+    | PErr k b c => HErr k b c
+    | PErrs k es => HErrs k es
+    | PObj k calls r =>
+        HObj k calls r ((fix go (l : list pf) : Forall P l :=
+                           match l with
+                           | [] => Forall_nil P
+                           | x :: t => Forall_cons x (pf_ind' x) (go t)
+                           end) calls)
+    end.
+End pf_induction.
+
+Definition field_spec (f : pf) : Prop :=
+  forall j i bs s0 s ow (Q : list id -> jenc -> store -> Prop),
+  j_buf j = Some i -> jshape j i bs s0 s -> sok ow s ->
+  (forall ow' j1 s', jstatic j j1 -> j_ns j1 = snd (p_field (j_spaced j) f (bs, j_ns j)) ->
+       jshape j1 i (fst (p_field (j_spaced j) f (bs, j_ns j))) s0 s' -> sok ow' s' -> Q ow' j1 s') ->
+  msafe (add_field f j) ow s Q.
+
+Lemma add_field_ok : forall f, field_spec f.
+Proof.
+  apply pf_ind'; unfold field_spec.
+  - (* PStr *) intros k v j i bs s0 s ow Q Hb Hs Hok HQ. cbn [add_field p_field fst snd].
+    apply msafe_bind. eapply add_string_ok; eauto. intros s' Hs' Hok'. apply msafe_ret.
+    apply HQ; auto using jstatic_refl.
+  - (* PRaw *) intros k v j i bs s0 s ow Q Hb Hs Hok HQ. cbn [add_field p_field fst snd].
+    apply msafe_bind. eapply jbuf_ok; eauto. intros s' Hs' Hok'. apply msafe_ret.
+    apply HQ; auto using jstatic_refl.
+  - (* PNs *) intros k j i bs s0 s ow Q Hb Hs Hok HQ. cbn [add_field p_field fst snd].
+    apply msafe_bind. eapply jbuf_ok; eauto. intros s' Hs' Hok'. apply msafe_ret.
+    apply HQ; auto using jstatic_set_ns. apply jshape_set_ns. exact Hs'.
+  - (* PRefl *) intros k r j i bs s0 s ow Q Hb Hs Hok HQ. cbn [add_field].
+    apply msafe_bind. eapply encode_reflected_ok; eauto.
+    intros ow1 j1 s1 Hst Hns Hs1 Hok1. cbn [fst snd].
+    destruct Hst as [Hc [Hbuf Hsp]].
+    assert (Hb1 : j_buf j1 = Some i) by congruence.
+    destruct r as [|txt|msg]; cbn [refl_res p_field fst snd].
+    + apply msafe_bind. eapply jbuf_ok; eauto. intros s' Hs' Hok'. apply msafe_ret.
+      rewrite Hsp in Hs'. apply HQ; auto. repeat split; assumption.
+    + apply msafe_bind. eapply jbuf_ok; eauto. intros s' Hs' Hok'. apply msafe_ret.
+      rewrite Hsp in Hs'. apply HQ; auto. repeat split; assumption.
+    + apply msafe_bind. eapply add_string_ok; eauto. intros s' Hs' Hok'. apply msafe_ret.
+      rewrite Hsp in Hs'. apply HQ; auto. repeat split; assumption.
+  - (* PErr *) intros k b c j i bs s0 s ow Q Hb Hs Hok HQ. cbn [add_field p_field fst snd].
+    apply msafe_bind. eapply add_string_ok; eauto. intros s1 Hs1 Hok1.
+    apply msafe_bind. unfold add_key_only. eapply jbuf_ok; eauto. intros s2 Hs2 Hok2.
+    apply msafe_bind. unfold arr_open. eapply jbuf_ok; eauto. intros s3 Hs3 Hok3.
+    apply msafe_bind. eapply err_array_core_ok; eauto. intros s4 Hs4 Hok4.
+    apply msafe_bind. unfold arr_close. eapply jbuf_ok; eauto. intros s5 Hs5 Hok5.
+    apply msafe_ret. apply HQ; auto using jstatic_refl.
+    cbn [p_field fst snd]. rewrite p_err_array_ns. reflexivity.
+  - (* PErrs *) intros k es j i bs s0 s ow Q Hb Hs Hok HQ. cbn [add_field p_field fst snd].
+    apply msafe_bind. unfold add_key_only. eapply jbuf_ok; eauto. intros s2 Hs2 Hok2.
+    apply msafe_bind. unfold arr_open. eapply jbuf_ok; eauto. intros s3 Hs3 Hok3.
+    apply msafe_bind. eapply err_array_zap_ok; eauto. intros s4 Hs4 Hok4.
+    apply msafe_bind. unfold arr_close. eapply jbuf_ok; eauto. intros s5 Hs5 Hok5.
+    apply msafe_ret. apply HQ; auto using jstatic_refl.
+    cbn [p_field fst snd]. rewrite p_err_array_ns. reflexivity.
+  - (* PObj *) intros k calls r HF j i bs s0 s ow Q Hb Hs Hok HQ. cbn [add_field p_field fst snd].
+    apply msafe_bind. unfold add_key_only. eapply jbuf_ok; eauto. intros s1 Hs1 Hok1.
+    apply msafe_bind. eapply obj_open_ok; eauto. intros s2 Hs2 Hok2.
+    apply msafe_bind.
+    set (goM := fix go (l : list pf) (j0 : jenc) {struct l} : M jenc :=
+                  match l with [] => ret j0 | g :: r0 => j' <- add_field g j0 ;; go r0 j' end).
+    set (goP := fix go (l : list pf) (s6 : pstate) {struct l} : pstate :=
+                  match l with [] => s6 | g :: r0 => go r0 (p_field (j_spaced j) g s6) end).
+    assert (Hgo : forall l, Forall field_spec l ->
+              forall j0 bs0 s0' ow0 (Q0 : list id -> jenc -> store -> Prop),
+              j_buf j0 = Some i -> j_spaced j0 = j_spaced j -> jshape j0 i bs0 s0 s0' -> sok ow0 s0' ->
+              (forall ow' j1 s', jstatic j0 j1 -> j_ns j1 = snd (goP l (bs0, j_ns j0)) ->
+                  jshape j1 i (fst (goP l (bs0, j_ns j0))) s0 s' -> sok ow' s' -> Q0 ow' j1 s') ->
+              msafe (goM l j0) ow0 s0' Q0).
+    { induction l as [|g l IHl]; intros HFl j0 bs0 s0' ow0 Q0 Hb0 Hsp0 Hs0 Hok0 HQ0; cbn [goM goP].
+      - apply msafe_ret. apply HQ0; auto using jstatic_refl.
+      - inversion HFl as [|g' l' Hg Hl]; subst.
+        apply msafe_bind. unfold field_spec in Hg. eapply Hg; eauto.
+        intros ow1 j1 s1' Hst1 Hns1 Hs1' Hok1'.
+        destruct Hst1 as [Hc1 [Hb1 Hsp1]].
+        eapply IHl; eauto; try congruence.
+        intros ow2 j2 s2' Hst2 Hns2 Hs2' Hok2'.
+        rewrite Hsp0 in Hns1, Hs1'. rewrite Hns1 in Hns2, Hs2'. rewrite Hsp0 in Hns2, Hs2'.
+        rewrite <- surjective_pairing in Hns2, Hs2'.
+        apply HQ0; auto.
+        eapply jstatic_trans; [|exact Hst2]. repeat split; assumption. }
+    eapply Hgo; eauto; try reflexivity.
+    intros ow3 j3 s3 Hst3 Hns3 Hs3 Hok3.
+    destruct Hst3 as [Hc3 [Hb3 Hsp3]]. cbn [set_ns j_cfg j_buf j_spaced j_ns] in Hc3, Hb3, Hsp3, Hns3, Hs3.
+    apply msafe_bind. eapply obj_close_ok; [rewrite Hb3; exact Hb|exact Hs3|exact Hok3|].
+    intros s4 Hs4 Hok4.
+    rewrite Hns3 in Hs4. rewrite <- surjective_pairing in Hs4.
+    assert (Hs4' : jshape (set_ns (set_ns j3 0) (j_ns j)) i
+                     (fst (p_obj_close (j_ns j) (goP calls (p_obj_open (j_spaced j) (add_key (j_spaced j) k bs, j_ns j))))) s0 s4).
+    { eapply jshape_jstatic; [| |exact Hs4]; reflexivity. }
+    clear Hs4.
+    destruct r as [msg|].
+    + apply msafe_bind. eapply add_string_ok; [| exact Hs4'|exact Hok4|].
+      { cbn [set_ns j_buf]. congruence. }
+      intros s5 Hs5 Hok5. apply msafe_ret. apply HQ; auto.
+      * repeat split; cbn [set_ns j_cfg j_buf j_spaced]; congruence.
+      * cbn [set_ns j_spaced] in Hs5. rewrite Hsp3 in Hs5. exact Hs5.
+    + apply msafe_ret. apply HQ; auto.
+      repeat split; cbn [set_ns j_cfg j_buf j_spaced]; congruence.
+Qed.
+
+Lemma add_fields_ok : forall fs j i bs s0 s ow (Q : list id -> jenc -> store -> Prop),
+  j_buf j = Some i -> jshape j i bs s0 s -> sok ow s ->
+  (forall ow' j1 s', jstatic j j1 -> j_ns j1 = snd (p_fields (j_spaced j) fs (bs, j_ns j)) ->
+       jshape j1 i (fst (p_fields (j_spaced j) fs (bs, j_ns j))) s0 s' -> sok ow' s' -> Q ow' j1 s') ->
+  msafe (add_fields fs j) ow s Q.
+Proof.
+  induction fs as [|f fs IH]; intros j i bs s0 s ow Q Hb Hs Hok HQ; cbn [add_fields p_fields].
+  - apply msafe_ret. apply HQ; auto using jstatic_refl.
+  - apply msafe_bind. eapply add_field_ok; eauto.
+    intros ow1 j1 s1 Hst1 Hns1 Hs1 Hok1. destruct Hst1 as [Hc1 [Hb1 Hsp1]].
+    eapply IH; eauto; try congruence.
+    intros ow2 j2 s2 Hst2 Hns2 Hs2 Hok2.
+    rewrite Hsp1, Hns1 in Hns2, Hs2. rewrite <- surjective_pairing in Hns2, Hs2.
+    apply HQ; auto. eapply jstatic_trans; [|exact Hst2]. repeat split; assumption.
+Qed.
+
+Lemma sok_remove_head ow r rb s : sok ow (mk r rb :: s) -> sok (remove Nat.eq_dec r ow) s.
+Proof.
+  intros [Hn Hi]. cbn [ids map mk b_id] in Hn, Hi. inversion Hn as [|x l Hnin Hn']; subst.
+  split; [exact Hn'|]. intros x Hx. apply in_in_remove.
+  - intros ->. apply Hnin. exact Hx.
+  - apply Hi. right. exact Hx.
+Qed.
+Lemma sok_head_in ow r rb s : sok ow (mk r rb :: s) -> In r ow.
+Proof. intros [_ Hi]. apply Hi. left. reflexivity. Qed.
+
+(* Buffer.Free of the buffer on top of the store *)
+Lemma buf_free_head_ok r rb s ow (Q : list id -> unit -> store -> Prop) :
+  sok ow (mk r rb :: s) ->
+  (forall ow', sok ow' s -> Q ow' tt s) ->
+  msafe (buf_free r) ow (mk r rb :: s) Q.
+Proof.
+  intros Hok HQ. eapply buf_free_ok; [fb|reflexivity|eapply sok_head_in; exact Hok|].
+  cbn [del_buf mk b_id]. rewrite Nat.eqb_refl. apply HQ. eapply sok_remove_head. exact Hok.
+Qed.
+
+Lemma clone_ok e ow s (Q : list id -> jenc -> store -> Prop) :
+  sok ow s ->
+  (forall i j, j_cfg j = Some (e_cfg e) -> j_buf j = Some i -> j_spaced j = e_spaced e -> j_ns j = e_ns e ->
+               jshape j i [] s (mk i [] :: s) -> sok (i :: ow) (mk i [] :: s) ->
+               Q (i :: ow) j (mk i [] :: s)) ->
+  msafe (clone e) ow s Q.
+Proof.
+  intros Hok HQ. unfold clone. apply msafe_bind. apply getp_ok; [reflexivity|].
+  intros j [Hrb Hre]. apply msafe_bind. apply buf_get_ok. intros i Hfresh. apply msafe_ret.
+  apply HQ; try reflexivity.
+  - apply js_plain; auto.
+  - apply sok_cons; assumption.
+Qed.
+
+Lemma Clone_ok e ow s (Q : list id -> jenc -> store -> Prop) :
+  sok ow s ->
+  (forall i j s', j_cfg j = Some (e_cfg e) -> j_buf j = Some i -> j_spaced j = e_spaced e -> j_ns j = e_ns e ->
+               jshape j i (e_buf e) s s' -> sok (i :: ow) s' ->
+               Q (i :: ow) j s') ->
+  msafe (Clone e) ow s Q.
+Proof.
+  intros Hok HQ. unfold Clone. apply msafe_bind. apply clone_ok; [exact Hok|].
+  intros i j Hc Hb Hsp Hns Hs Hok1. rewrite Hb. apply msafe_bind. apply deref_ok.
+  apply msafe_bind. eapply buf_upd_ok; [eapply jshape_find; exact Hs|].
+  cbn [b_bs mk app]. apply msafe_ret. apply HQ; auto.
+  - eapply jshape_set. exact Hs.
+  - apply sok_set. exact Hok1.
+Qed.
+
+Lemma putJSONEncoder_ok j i bs s0 s ow (Q : list id -> unit -> store -> Prop) :
+  jshape j i bs s0 s -> sok ow s ->
+  (forall ow', sok ow' (mk i bs :: s0) -> Q ow' tt (mk i bs :: s0)) ->
+  msafe (putJSONEncoder j) ow s Q.
+Proof.
+  intros Hs Hok HQ. unfold putJSONEncoder.
+  destruct Hs as [Hrb Hre ->|r rb Hrb Hre Hne ->]; rewrite Hrb.
+  - apply msafe_bind. apply msafe_ret. apply putp_ok; [reflexivity|split; reflexivity|].
+    apply HQ. exact Hok.
+  - apply msafe_bind. apply buf_free_head_ok; [exact Hok|]. intros ow' Hok'.
+    apply putp_ok; [reflexivity|split; reflexivity|]. apply HQ. exact Hok'.
+Qed.
+
+Lemma full_path_ok file line ow s (Q : list id -> bytes -> store -> Prop) :
+  sok ow s ->
+  (forall ow', sok ow' s -> Q ow' (p_path file line) s) ->
+  msafe (full_path file line) ow s Q.
+Proof.
+  intros Hok HQ. unfold full_path. apply msafe_bind. apply buf_get_ok. intros b Hfresh.
+  apply msafe_bind. eapply buf_upd_ok; [fb|].
+  cbn [set_buf mk b_id b_bs b_pool app]. rewrite Nat.eqb_refl.
+  apply msafe_bind. eapply buf_read_ok; [fb|]. cbn [b_bs].
+  apply msafe_bind. apply (buf_free_head_ok b (file ++ [COLON] ++ print_Z line)).
+  - apply sok_cons; assumption.
+  - intros ow' Hok'. apply msafe_ret. apply HQ. exact Hok'.
+Qed.
+
+Lemma cond_add_string_ok (c : bool) j k v i bs s0 s ow (Q : list id -> unit -> store -> Prop) :
+  j_buf j = Some i -> jshape j i bs s0 s -> sok ow s ->
+  (forall s', jshape j i (if c then p_add_string (j_spaced j) k v bs else bs) s0 s' -> sok ow s' -> Q ow tt s') ->
+  msafe (if c then Model.add_string j k v else ret tt) ow s Q.
+Proof.
+  intros Hb Hs Hok HQ. destruct c.
+  - eapply add_string_ok; eauto.
+  - apply msafe_ret. apply HQ; assumption.
+Qed.
+
+Lemma json_encode_entry_ok e ent fs ow s (Q : list id -> id -> store -> Prop) :
+  sok ow s ->
+  (forall ow' i, sok ow' (mk i (p_json_line e ent fs) :: s) -> Q ow' i (mk i (p_json_line e ent fs) :: s)) ->
+  msafe (json_encode_entry e ent fs) ow s Q.
+Proof.
+  intros Hok HQ. unfold json_encode_entry.
+  apply msafe_bind. apply clone_ok; [exact Hok|].
+  intros i j Hc Hb Hsp Hns Hs0 Hok0.
+  apply msafe_bind. eapply jbuf_ok; eauto. intros s1 Hs1 Hok1. cbn [app] in Hs1.
+  unfold cfg_of. rewrite Hc. apply msafe_bind. apply msafe_ret.
+  apply msafe_bind. eapply cond_add_string_ok; eauto. intros s2 Hs2 Hok2.
+  apply msafe_bind. eapply cond_add_string_ok; eauto. intros s3 Hs3 Hok3.
+  apply msafe_bind.
+  assert (Hcaller : forall (Q' : list id -> unit -> store -> Prop) bs3, jshape j i bs3 s s3 ->
+     (forall ow' s', jshape j i
+          (match en_caller ent with
+           | Some (file, line) => if negb (is_nil (c_caller (e_cfg e)))
+                                  then p_add_string (j_spaced j) (c_caller (e_cfg e)) (p_path file line) bs3 else bs3
+           | None => bs3 end) s s' -> sok ow' s' -> Q' ow' tt s') ->
+     msafe (match en_caller ent with
+            | Some (file, line) =>
+                if negb (is_nil (c_caller (e_cfg e))) then
+                  p <- full_path file line ;; Model.add_string j (c_caller (e_cfg e)) p
+                else ret tt
+            | None => ret tt
+            end) (i :: ow) s3 Q').
+  { intros Q' bs3 Hs3' HQ'. destruct (en_caller ent) as [[file line]|].
+    - destruct (negb (is_nil (c_caller (e_cfg e)))).
+      + apply msafe_bind. apply full_path_ok; [exact Hok3|]. intros ow' Hok'.
+        eapply add_string_ok; eauto.
+      + apply msafe_ret. apply HQ'; assumption.
+    - apply msafe_ret. apply HQ'; assumption. }
+  eapply Hcaller; [exact Hs3|]. intros ow4 s4 Hs4 Hok4.
+  apply msafe_bind. eapply cond_add_string_ok; eauto. intros s5 Hs5 Hok5.
+  apply msafe_bind.
+  assert (Hctx : forall (Q' : list id -> unit -> store -> Prop) bs5, jshape j i bs5 s s5 ->
+     (forall s', jshape j i (if negb (is_nil (e_buf e)) then add_sep (j_spaced j) bs5 ++ e_buf e else bs5) s s' ->
+                 sok ow4 s' -> Q' ow4 tt s') ->
+     msafe (if negb (is_nil (e_buf e)) then jbuf j (fun b => add_sep (j_spaced j) b ++ e_buf e) else ret tt) ow4 s5 Q').
+  { intros Q' bs5 Hs5' HQ'. destruct (negb (is_nil (e_buf e))).
+    - eapply jbuf_ok; eauto.
+    - apply msafe_ret. apply HQ'; assumption. }
+  eapply Hctx; [exact Hs5|]. intros s6 Hs6 Hok6.
+  apply msafe_bind. eapply add_fields_ok; eauto.
+  intros ow7 j7 s7 Hst7 Hns7 Hs7 Hok7. destruct Hst7 as [Hc7 [Hb7 Hsp7]].
+  apply msafe_bind. eapply close_ns_ok; [rewrite Hb7; exact Hb|exact Hs7|exact Hok7|].
+  intros s8 Hs8 Hok8. rewrite Hns7 in Hs8. rewrite <- surjective_pairing in Hs8.
+  apply msafe_bind. eapply cond_add_string_ok; [cbn [set_ns j_buf]; rewrite Hb7; exact Hb|exact Hs8|exact Hok8|].
+  intros s9 Hs9 Hok9.
+  apply msafe_bind. eapply jbuf_ok; [cbn [set_ns j_buf]; rewrite Hb7; exact Hb|exact Hs9|exact Hok9|].
+  intros s10 Hs10 Hok10.
+  cbn [set_ns j_buf]. rewrite Hb7, Hb. apply msafe_bind. apply deref_ok.
+  apply msafe_bind. eapply putJSONEncoder_ok; [exact Hs10|exact Hok10|].
+  intros ow11 Hok11. apply msafe_ret.
+  cbn [set_ns j_spaced] in *. rewrite Hsp7, Hsp, Hns in *.
+  unfold p_json_line in HQ. apply HQ. exact Hok11.
+Qed.
+
+Definition ctx_line (e : enc) (fs : list pf) (lb : bytes) : bytes :=
+  let ctx := fst (p_close (p_fields (e_spaced e) fs (e_buf e, e_ns e))) in
+  if is_nil ctx then lb else p_sep (c_sep (e_cfg e)) lb ++ [LBRACE] ++ ctx ++ [RBRACE].
+
+Lemma sok_remove_second ow a ab r rb s :
+  sok ow (mk a ab :: mk r rb :: s) -> sok (remove Nat.eq_dec r ow) (mk a ab :: s).
+Proof.
+  intros [Hn Hi]. cbn [ids map mk b_id] in Hn, Hi.
+  inversion Hn as [|x l Hnin Hn']; subst. inversion Hn' as [|x l Hnin' Hn'']; subst.
+  split; cbn [ids map mk b_id].
+  - constructor; [|exact Hn'']. intros H. apply Hnin. right. exact H.
+  - intros x Hx. apply in_in_remove.
+    + intros ->. destruct Hx as [<-|Hx]; [apply Hnin; left; reflexivity|apply Hnin'; exact Hx].
+    + apply Hi. destruct Hx as [<-|Hx]; [left; reflexivity|right; right; exact Hx].
+Qed.
+
+Lemma write_context_ok e line lb fs ow s (Q : list id -> unit -> store -> Prop) :
+  sok ow (mk line lb :: s) ->
+  (forall ow', sok ow' (mk line (ctx_line e fs lb) :: s) -> Q ow' tt (mk line (ctx_line e fs lb) :: s)) ->
+  msafe (write_context e line fs) ow (mk line lb :: s) Q.
+Proof.
+  intros Hok HQ. unfold write_context.
+  apply msafe_bind. apply Clone_ok; [exact Hok|].
+  intros cb j s1 Hc Hb Hsp Hns Hs1 Hok1.
+  apply msafe_bind. eapply add_fields_ok; eauto.
+  intros ow2 j2 s2 Hst2 Hns2 Hs2 Hok2. destruct Hst2 as [Hc2 [Hb2 Hsp2]].
+  apply msafe_bind. eapply close_ns_ok; [rewrite Hb2; exact Hb|exact Hs2|exact Hok2|].
+  intros s3 Hs3 Hok3. rewrite Hns2 in Hs3. rewrite <- surjective_pairing in Hs3.
+  rewrite Hsp, Hns in Hs3.
+  cbn [set_ns j_buf]. rewrite Hb2, Hb. apply msafe_bind. apply deref_ok.
+  apply msafe_bind. eapply buf_read_ok; [eapply jshape_find; exact Hs3|]. cbn [b_bs mk].
+  set (txt := fst (p_close (p_fields (e_spaced e) fs (e_buf e, e_ns e)))) in *.
+  assert (HQ' : forall ow', sok ow' (mk line (if is_nil txt then lb else p_sep (c_sep (e_cfg e)) lb ++ [LBRACE] ++ txt ++ [RBRACE]) :: s) ->
+                Q ow' tt (mk line (if is_nil txt then lb else p_sep (c_sep (e_cfg e)) lb ++ [LBRACE] ++ txt ++ [RBRACE]) :: s)).
+  { exact HQ. }
+  clear HQ.
+  destruct Hs3 as [Hrb Hre ->|r rb Hrb Hre Hne ->].
+  - (* no reflection buffer *)
+    cbn [set_ns j_rbuf j_renc] in Hrb, Hre.
+    assert (Hcl : cb <> line).
+    { destruct Hok3 as [Hn _]. cbn [ids map mk b_id] in Hn. inversion Hn as [|x l Hnin _]; subst.
+      intros ->. apply Hnin. left. reflexivity. }
+    apply msafe_bind.
+    assert (Hupd : forall (Q' : list id -> unit -> store -> Prop),
+       Q' ow2 tt (mk cb txt :: mk line (if is_nil txt then lb else p_sep (c_sep (e_cfg e)) lb ++ [LBRACE] ++ txt ++ [RBRACE]) :: s) ->
+       msafe (if is_nil txt then ret tt
+              else buf_upd line (fun b => (if is_nil b then b else b ++ c_sep (e_cfg e)) ++ [LBRACE] ++ txt ++ [RBRACE]))
+             ow2 (mk cb txt :: mk line lb :: s) Q').
+    { intros Q' HQ2. destruct (is_nil txt).
+      - apply msafe_ret. exact HQ2.
+      - eapply buf_upd_ok; [cbn [find_buf mk b_id]; rewrite (neq_eqb _ _ Hcl), Nat.eqb_refl; reflexivity|].
+        cbn [set_buf mk b_id b_bs b_pool]. rewrite (neq_eqb _ _ Hcl), Nat.eqb_refl. exact HQ2. }
+    apply Hupd.
+    apply msafe_bind. apply buf_free_head_ok.
+    { eapply sok_ids; [|exact Hok3]. reflexivity. }
+    intros ow4 Hok4. unfold putJSONEncoder. cbn [set_ns j_rbuf]. rewrite Hrb.
+    apply msafe_bind. apply msafe_ret. apply putp_ok; [reflexivity|split; reflexivity|].
+    apply HQ'. exact Hok4.
+  - (* reflection buffer on top *)
+    cbn [set_ns j_rbuf j_renc] in Hrb, Hre.
+    assert (Hcl : cb <> line /\ r <> line).
+    { destruct Hok3 as [Hn _]. cbn [ids map mk b_id] in Hn.
+      inversion Hn as [|x l Hnin Hn']; subst. inversion Hn' as [|x l Hnin' _]; subst.
+      split; intros ->; [apply Hnin'; left; reflexivity|apply Hnin; right; left; reflexivity]. }
+    destruct Hcl as [Hcl Hrl].
+    apply msafe_bind.
+    assert (Hupd : forall (Q' : list id -> unit -> store -> Prop),
+       Q' ow2 tt (mk r rb :: mk cb txt :: mk line (if is_nil txt then lb else p_sep (c_sep (e_cfg e)) lb ++ [LBRACE] ++ txt ++ [RBRACE]) :: s) ->
+       msafe (if is_nil txt then ret tt
+              else buf_upd line (fun b => (if is_nil b then b else b ++ c_sep (e_cfg e)) ++ [LBRACE] ++ txt ++ [RBRACE]))
+             ow2 (mk r rb :: mk cb txt :: mk line lb :: s) Q').
+    { intros Q' HQ2. destruct (is_nil txt).
+      - apply msafe_ret. exact HQ2.
+      - eapply buf_upd_ok; [cbn [find_buf mk b_id]; rewrite (neq_eqb _ _ Hcl), (neq_eqb _ _ Hrl), Nat.eqb_refl; reflexivity|].
+        cbn [set_buf mk b_id b_bs b_pool]. rewrite (neq_eqb _ _ Hcl), (neq_eqb _ _ Hrl), Nat.eqb_refl. exact HQ2. }
+    apply Hupd.
+    assert (Hok3' : sok ow2 (mk r rb :: mk cb txt :: mk line (if is_nil txt then lb else p_sep (c_sep (e_cfg e)) lb ++ [LBRACE] ++ txt ++ [RBRACE]) :: s)).
+    { eapply sok_ids; [|exact Hok3]. reflexivity. }
+    apply msafe_bind. eapply buf_free_ok.
+    { cbn [find_buf mk b_id]. rewrite (neq_eqb _ _ Hne), Nat.eqb_refl. reflexivity. }
+    { reflexivity. }
+    { apply (proj2 Hok3'). cbn [ids map mk b_id]. right. left. reflexivity. }
+    cbn [del_buf mk b_id]. rewrite (neq_eqb _ _ Hne), Nat.eqb_refl.
+    unfold putJSONEncoder. cbn [set_ns j_rbuf]. rewrite Hrb.
+    apply msafe_bind. apply buf_free_head_ok.
+    { eapply sok_remove_second. exact Hok3'. }
+    intros ow5 Hok5. apply putp_ok; [reflexivity|split; reflexivity|].
+    apply HQ'. exact Hok5.
+Qed.
+
+Lemma line_upd_ok line lb f ow s (Q : list id -> unit -> store -> Prop) :
+  Q ow tt (mk line (f lb) :: s) -> msafe (buf_upd line f) ow (mk line lb :: s) Q.
+Proof.
+  intros HQ. eapply buf_upd_ok; [fb|]. cbn [set_buf mk b_id b_bs b_pool]. rewrite Nat.eqb_refl. exact HQ.
+Qed.
+
+Lemma console_encode_entry_ok e ent fs ow s (Q : list id -> id -> store -> Prop) :
+  sok ow s ->
+  (forall ow' i, sok ow' (mk i (p_console_line e ent fs) :: s) -> Q ow' i (mk i (p_console_line e ent fs) :: s)) ->
+  msafe (console_encode_entry e ent fs) ow s Q.
+Proof.
+  intros Hok HQ. unfold console_encode_entry.
+  apply msafe_bind. apply buf_get_ok. intros line Hfresh.
+  assert (Hok1 : sok (line :: ow) (mk line [] :: s)) by (apply sok_cons; assumption).
+  apply msafe_bind. apply getp_ok; [reflexivity|]. intros arr Harr. cbn [clean] in Harr. rewrite Harr. cbn [app].
+  set (el2 := if negb (is_nil (en_name ent)) && negb (is_nil (c_name (e_cfg e)))
+              then (if negb (is_nil (c_lvl (e_cfg e))) then [en_lvl ent] else []) ++ [en_name ent]
+              else (if negb (is_nil (c_lvl (e_cfg e))) then [en_lvl ent] else [])).
+  set (el3 := match en_caller ent with
+              | Some (file, line_no) => if negb (is_nil (c_caller (e_cfg e))) then el2 ++ [p_path file line_no] else el2
+              | None => el2 end).
+  apply msafe_bind.
+  assert (Hcaller : forall (Q' : list id -> list bytes -> store -> Prop),
+     (forall ow', sok ow' (mk line [] :: s) -> Q' ow' el3 (mk line [] :: s)) ->
+     msafe (match en_caller ent with
+            | Some (file, line_no) =>
+                if negb (is_nil (c_caller (e_cfg e))) then p <- full_path file line_no ;; ret (el2 ++ [p]) else ret el2
+            | None => ret el2
+            end) (line :: ow) (mk line [] :: s) Q').
+  { intros Q' HQ'. unfold el3. destruct (en_caller ent) as [[file line_no]|].
+    - destruct (negb (is_nil (c_caller (e_cfg e)))).
+      + apply msafe_bind. apply full_path_ok; [exact Hok1|]. intros ow' Hok'. apply msafe_ret. apply HQ'. exact Hok'.
+      + apply msafe_ret. apply HQ'. exact Hok1.
+    - apply msafe_ret. apply HQ'. exact Hok1. }
+  apply Hcaller. intros ow2 Hok2.
+  apply msafe_bind. apply line_upd_ok. cbn [app].
+  apply msafe_bind. apply putp_ok; [reflexivity|reflexivity|].
+  apply msafe_bind.
+  set (l1 := join_cols (c_sep (e_cfg e)) true el3).
+  set (l2 := if negb (is_nil (c_msg (e_cfg e))) then p_sep (c_sep (e_cfg e)) l1 ++ en_msg ent else l1).
+  assert (Hmsg : forall (Q' : list id -> unit -> store -> Prop),
+     Q' ow2 tt (mk line l2 :: s) ->
+     msafe (if negb (is_nil (c_msg (e_cfg e)))
+            then buf_upd line (fun b => (if is_nil b then b else b ++ c_sep (e_cfg e)) ++ en_msg ent) else ret tt)
+           ow2 (mk line l1 :: s) Q').
+  { intros Q' HQ'. unfold l2 in HQ'. destruct (negb (is_nil (c_msg (e_cfg e)))).
+    - apply line_upd_ok. exact HQ'.
+    - apply msafe_ret. exact HQ'. }
+  apply Hmsg.
+  apply msafe_bind. apply write_context_ok.
+  { eapply sok_ids; [|exact Hok2]. reflexivity. }
+  intros ow3 Hok3.
+  apply msafe_bind.
+  set (l3 := ctx_line e fs l2) in *.
+  set (l4 := if negb (is_nil (en_stack ent)) && negb (is_nil (c_stack (e_cfg e))) then l3 ++ [NL] ++ en_stack ent else l3).
+  assert (Hstack : forall (Q' : list id -> unit -> store -> Prop),
+     Q' ow3 tt (mk line l4 :: s) ->
+     msafe (if negb (is_nil (en_stack ent)) && negb (is_nil (c_stack (e_cfg e)))
+            then buf_upd line (fun b => b ++ [NL] ++ en_stack ent) else ret tt)
+           ow3 (mk line l3 :: s) Q').
+  { intros Q' HQ'. unfold l4 in HQ'. destruct (negb (is_nil (en_stack ent)) && negb (is_nil (c_stack (e_cfg e)))).
+    - apply line_upd_ok. exact HQ'.
+    - apply msafe_ret. exact HQ'. }
+  apply Hstack.
+  apply msafe_bind. apply line_upd_ok. apply msafe_ret.
+  apply HQ. eapply sok_ids; [|exact Hok3]. reflexivity.
+Qed.
+
+Lemma core_write_ok co ent fs ow s (Q : list id -> bytes -> store -> Prop) :
+  sok ow s ->
+  (forall ow', sok ow' s -> Q ow' (p_core_line co ent fs) s) ->
+  msafe (core_write co ent fs) ow s Q.
+Proof.
+  intros Hok HQ. unfold core_write, p_core_line in *. apply msafe_bind.
+  destruct (co_console co).
+  - apply console_encode_entry_ok; [exact Hok|]. intros ow1 i Hok1.
+    apply msafe_bind. eapply buf_read_ok; [fb|]. cbn [b_bs mk].
+    apply msafe_bind. apply buf_free_head_ok; [exact Hok1|]. intros ow2 Hok2.
+    apply msafe_ret. apply HQ. exact Hok2.
+  - apply json_encode_entry_ok; [exact Hok|]. intros ow1 i Hok1.
+    apply msafe_bind. eapply buf_read_ok; [fb|]. cbn [b_bs mk].
+    apply msafe_bind. apply buf_free_head_ok; [exact Hok1|]. intros ow2 Hok2.
+    apply msafe_ret. apply HQ. exact Hok2.
+Qed.
+
+Lemma core_with_ok e fs ow s (Q : list id -> enc -> store -> Prop) :
+  sok ow s ->
+  (forall ow' s', sok ow' s' -> Q ow' (p_with e fs) s') ->
+  msafe (core_with e fs) ow s Q.
+Proof.
+  intros Hok HQ. unfold core_with.
+  apply msafe_bind. apply Clone_ok; [exact Hok|].
+  intros i j s1 Hc Hb Hsp Hns Hs1 Hok1.
+  apply msafe_bind. eapply add_fields_ok; eauto.
+  intros ow2 j2 s2 Hst2 Hns2 Hs2 Hok2. destruct Hst2 as [Hc2 [Hb2 Hsp2]].
+  rewrite Hb2, Hb. apply msafe_bind. apply deref_ok.
+  apply msafe_bind. eapply buf_read_ok; [eapply jshape_find; exact Hs2|]. cbn [b_bs mk].
+  unfold cfg_of. rewrite Hc2, Hc. apply msafe_bind. apply msafe_ret. apply msafe_ret.
+  rewrite Hsp2, Hns2, Hsp, Hns. apply HQ. exact Hok2.
+Qed.
+
+(* ---- stack capture ---- *)
+Lemma callers_spec cs buf :
+  let n := Nat.min (length cs) (length buf) in
+  fst (callers cs buf) = n /\ length (snd (callers cs buf)) = length buf /\
+  firstn n (snd (callers cs buf)) = firstn n cs.
+Proof.
+  cbn zeta. unfold callers. cbn [fst snd]. split; [reflexivity|]. split.
+  - rewrite app_length, firstn_length, skipn_length. lia.
+  - rewrite firstn_app, firstn_length.
+    replace (Nat.min (length cs) (length buf) - Nat.min (Nat.min (length cs) (length buf)) (length cs)) with 0 by lia.
+    cbn [firstn]. rewrite app_nil_r. rewrite firstn_firstn. f_equal. lia.
+Qed.
+
+Lemma grow_ok : forall fuel cs pcs n,
+  1 <= length pcs -> n = Nat.min (length cs) (length pcs) -> firstn n pcs = firstn n cs ->
+  length cs + 1 <= fuel + length pcs ->
+  exists pcs', grow fuel cs pcs n = Some (pcs', length cs) /\ firstn (length cs) pcs' = cs /\ 1 <= length pcs'.
+Proof.
+  induction fuel as [|f IH]; intros cs pcs n Hl Hn Hf Hfuel.
+  - cbn [grow]. assert (Hlt : length cs < length pcs) by lia.
+    destruct (Nat.eqb n (length pcs)) eqn:E; [apply Nat.eqb_eq in E; lia|].
+    assert (n = length cs) by lia. subst n. exists pcs. split; [rewrite H; reflexivity|]. split; [|exact Hl].
+    rewrite H in Hf. rewrite Hf. apply firstn_all.
+  - cbn [grow]. destruct (Nat.eqb n (length pcs)) eqn:E.
+    + apply Nat.eqb_eq in E.
+      pose proof (callers_spec cs (repeat 0 (length pcs * 2))) as Hc. cbn zeta in Hc.
+      destruct (callers cs (repeat 0 (length pcs * 2))) as [n' filled] eqn:Ec. cbn [fst snd] in Hc.
+      destruct Hc as [Hn' [Hlen Hfirst]]. rewrite repeat_length in *.
+      apply IH.
+      * lia.
+      * rewrite Hlen. exact Hn'.
+      * rewrite Hn'. exact Hfirst.
+      * lia.
+    + apply Nat.eqb_neq in E. assert (n = length cs) by lia.
+      exists pcs. split; [rewrite H; reflexivity|]. split; [|exact Hl].
+      rewrite H in Hf. rewrite Hf. apply firstn_all.
+Qed.
+
+Lemma capture_into_ok cs full st :
+  1 <= length (k_storage st) ->
+  exists st', capture_into cs full st = Some st' /\
+              k_pcs st' = (if full then cs else firstn 1 cs) /\
+              k_frames st' = Some (if full then cs else firstn 1 cs) /\ 1 <= length (k_storage st').
+Proof.
+  intros Hl. unfold capture_into. destruct full.
+  - pose proof (callers_spec cs (k_storage st)) as Hc. cbn zeta in Hc.
+    destruct (callers cs (k_storage st)) as [n filled] eqn:Ec. cbn [fst snd] in Hc.
+    destruct Hc as [Hn [Hlen Hfirst]].
+    assert (A1 : n = Nat.min (length cs) (length filled)) by (rewrite Hlen; exact Hn).
+    assert (A2 : firstn n filled = firstn n cs) by (rewrite Hn; exact Hfirst).
+    destruct (grow_ok (S (length cs)) cs filled n) as [pcs' [Hg [Hcs Hl']]]; [lia|exact A1|exact A2|lia|].
+    rewrite Hg. eexists. split; [reflexivity|]. cbn [k_pcs k_frames k_storage]. rewrite Hcs.
+    split; [reflexivity|]. split; [reflexivity|exact Hl'].
+  - pose proof (callers_spec cs (firstn 1 (k_storage st))) as Hc. cbn zeta in Hc.
+    destruct (callers cs (firstn 1 (k_storage st))) as [n filled] eqn:Ec. cbn [fst snd] in Hc.
+    destruct Hc as [Hn [Hlen Hfirst]].
+    assert (H1 : length (firstn 1 (k_storage st)) = 1) by (rewrite firstn_length; lia).
+    rewrite H1 in *.
+    assert (Hpcs : firstn n filled = firstn 1 cs).
+    { rewrite Hn, Hfirst.
+      destruct cs as [|c cs']; [reflexivity|]. cbn [length]. replace (Nat.min (S (length cs')) 1) with 1 by lia. reflexivity. }
+    eexists. split; [reflexivity|]. cbn [k_pcs k_frames k_storage]. rewrite Hpcs.
+    split; [reflexivity|]. split; [reflexivity|]. rewrite app_length. lia.
+Qed.
+
+Lemma capture_ok (cs : list pc) (full : bool) (ow : list id) (s : store) (Q : list id -> stack -> store -> Prop) :
+  (forall st', k_frames st' = Some (if full then cs else firstn 1 cs) -> 1 <= length (k_storage st') -> Q ow st' s) ->
+  msafe (capture cs full) ow s Q.
+Proof.
+  intros HQ. unfold capture. apply msafe_bind. apply getp_ok; [reflexivity|]. intros st Hst. cbn [clean] in Hst.
+  destruct (capture_into_ok cs full st Hst) as [st' [-> [_ [Hfr Hl]]]]. apply msafe_ret. apply HQ; assumption.
+Qed.
+
+Lemma stack_free_ok st ow s (Q : list id -> unit -> store -> Prop) :
+  1 <= length (k_storage st) -> Q ow tt s -> msafe (stack_free st) ow s Q.
+Proof. intros Hl HQ. unfold stack_free. apply putp_ok; [reflexivity|exact Hl|exact HQ]. Qed.
+
+Lemma take_stack_ok cs ow s (Q : list id -> bytes -> store -> Prop) :
+  sok ow s ->
+  (forall ow', sok ow' s -> Q ow' (p_take cs) s) ->
+  msafe (take_stack cs) ow s Q.
+Proof.
+  intros Hok HQ. unfold take_stack.
+  apply msafe_bind. apply capture_ok. intros st Hfr Hl.
+  apply msafe_bind. apply buf_get_ok. intros b Hfresh. rewrite Hfr.
+  apply msafe_bind. apply line_upd_ok. cbn [app].
+  apply msafe_bind. eapply buf_read_ok; [fb|]. cbn [b_bs mk].
+  apply msafe_bind. apply buf_free_head_ok; [apply sok_cons; assumption|]. intros ow1 Hok1.
+  apply msafe_bind. apply stack_free_ok; [exact Hl|]. apply msafe_ret. apply HQ. exact Hok1.
+Qed.
+
+(* ---- CheckedEntry and Logger.check ---- *)
+Lemma write_cores_ok cores : forall n ent fs ow s (Q : list id -> list event * bool -> store -> Prop),
+  sok ow s ->
+  (forall ow', sok ow' s -> Q ow' (p_write_cores n cores ent fs) s) ->
+  msafe (write_cores n cores ent fs) ow s Q.
+Proof.
+  induction cores as [|co r IH]; intros n ent fs ow s Q Hok HQ; cbn [write_cores p_write_cores].
+  - apply msafe_ret. apply HQ. exact Hok.
+  - apply msafe_bind. apply core_write_ok; [exact Hok|]. intros ow1 Hok1.
+    apply msafe_bind. apply IH; [exact Hok1|]. intros ow2 Hok2.
+    apply msafe_ret. apply HQ. exact Hok2.
+Qed.
+
+Definition p_ce_events (ce : centry) (fs : list pf) : list event :=
+  let r := p_write_cores 0 (ce_cores ce) (ce_ent ce) fs in
+  fst r ++ (if snd r && ce_errout ce then [ErrOut] else []) ++
+  (match ce_after ce with Some h => [Hook h] | None => [] end).
+
+Lemma ce_write_ok ce fs ow s (Q : list id -> list event -> store -> Prop) :
+  ce_dirty ce = false -> sok ow s ->
+  (forall ow', sok ow' s -> Q ow' (p_ce_events ce fs) s) ->
+  msafe (ce_write ce fs) ow s Q.
+Proof.
+  intros Hd Hok HQ. unfold ce_write. rewrite Hd.
+  apply msafe_bind. apply write_cores_ok; [exact Hok|]. intros ow1 Hok1.
+  apply msafe_bind. apply putp_ok; [reflexivity|exact I|]. apply msafe_ret.
+  apply HQ. exact Hok1.
+Qed.
+
+Lemma log_call_ok lg ent cs fs ow s (Q : list id -> list event -> store -> Prop) :
+  sok ow s ->
+  (forall ow', sok ow' s -> Q ow' (p_log lg ent cs fs) s) ->
+  msafe (log_call lg ent cs fs) ow s Q.
+Proof.
+  intros Hok HQ. unfold log_call, p_log in *.
+  destruct (l_cores lg) as [|co cores] eqn:Hcores.
+  - destruct (l_hook lg) as [h|] eqn:Hhook.
+    + apply msafe_bind. unfold get_checked_entry. apply msafe_bind. apply getp_ok; [reflexivity|]. intros ce _.
+      apply msafe_ret. cbn [ce_reset ce_errout ce_dirty ce_cores app].
+      apply ce_write_ok; [reflexivity|exact Hok|]. intros ow1 Hok1.
+      unfold p_ce_events. cbn [ce_cores ce_ent ce_errout ce_after p_write_cores fst snd andb app].
+      apply HQ. exact Hok1.
+    + apply msafe_ret. apply HQ. exact Hok.
+  - assert (HQ' : forall ow' e', sok ow' s -> e' = p_log_entry lg ent cs ->
+              Q ow' (p_ce_events {| ce_ent := e'; ce_errout := l_errout lg; ce_dirty := false;
+                                    ce_after := l_hook lg; ce_cores := co :: cores |} fs) s).
+    { intros ow' e' Hok' ->. unfold p_ce_events. cbn [ce_cores ce_ent ce_errout ce_after].
+      specialize (HQ ow' Hok'). destruct (l_hook lg); exact HQ. }
+    clear HQ.
+    assert (Hmain : msafe
+      (ce0 <- get_checked_entry ;;
+       let ce1 := {| ce_ent := ent; ce_errout := ce_errout ce0; ce_dirty := ce_dirty ce0;
+                     ce_after := l_hook lg; ce_cores := ce_cores ce0 ++ co :: cores |} in
+       let ce2 := {| ce_ent := ce_ent ce1; ce_errout := l_errout lg; ce_dirty := ce_dirty ce1;
+                     ce_after := ce_after ce1; ce_cores := ce_cores ce1 |} in
+       if negb (l_caller lg) && negb (l_stack lg) then ce_write ce2 fs
+       else
+         st <- capture cs (l_stack lg) ;;
+         match k_frames st with
+         | None => mfail NilDeref
+         | Some fr =>
+             match fr with
+             | [] => stack_free st ;;; ce_write ce2 fs
+             | frame :: more =>
+                 let e1 := ce_ent ce2 in
+                 let e2 := if l_caller lg
+                           then {| en_lvl := en_lvl e1; en_name := en_name e1; en_msg := en_msg e1; en_stack := en_stack e1;
+                                   en_caller := Some (print_Z (Z.of_nat frame), Z.of_nat frame) |}
+                           else e1 in
+                 e3 <- (if l_stack lg then
+                          b <- buf_get ;;
+                          buf_upd b (fun bs => bs ++ fmt_frame false frame ++
+                                               (if is_nil more then [] else fmt_stack true more)) ;;;
+                          s <- buf_read b ;;
+                          buf_free b ;;;
+                          ret {| en_lvl := en_lvl e2; en_name := en_name e2; en_msg := en_msg e2; en_stack := s;
+                                 en_caller := en_caller e2 |}
+                        else ret e2) ;;
+                 stack_free st ;;;
+                 ce_write (set_ent ce2 e3) fs
+             end
+         end) ow s Q).
+    { apply msafe_bind. unfold get_checked_entry. apply msafe_bind. apply getp_ok; [reflexivity|]. intros ce _.
+      apply msafe_ret. cbn [ce_reset ce_errout ce_dirty ce_cores ce_ent ce_after app].
+      unfold p_log_entry in HQ'. rewrite Hcores in HQ'.
+      destruct (negb (l_caller lg) && negb (l_stack lg)) eqn:Hcs.
+      - apply ce_write_ok; [reflexivity|exact Hok|]. intros ow1 Hok1. apply HQ'; [exact Hok1|reflexivity].
+      - apply msafe_bind. apply capture_ok. intros st Hfr Hl. rewrite Hfr.
+        destruct (if l_stack lg then cs else firstn 1 cs) as [|frame more] eqn:Hfrs.
+        + apply msafe_bind. apply stack_free_ok; [exact Hl|].
+          apply ce_write_ok; [reflexivity|exact Hok|]. intros ow1 Hok1. apply HQ'; [exact Hok1|reflexivity].
+        + cbn zeta. apply msafe_bind.
+          destruct (l_stack lg) eqn:Hst.
+          * apply msafe_bind. apply buf_get_ok. intros b Hfresh.
+            apply msafe_bind. apply line_upd_ok. cbn [app].
+            apply msafe_bind. eapply buf_read_ok; [fb|]. cbn [b_bs mk].
+            apply msafe_bind. apply buf_free_head_ok; [apply sok_cons; assumption|]. intros ow1 Hok1.
+            apply msafe_ret. apply msafe_bind. apply stack_free_ok; [exact Hl|].
+            apply ce_write_ok; [reflexivity|exact Hok1|]. intros ow2 Hok2.
+            unfold set_ent. cbn [ce_errout ce_dirty ce_after ce_cores].
+            apply HQ'; [exact Hok2|]. destruct (l_caller lg); reflexivity.
+          * apply msafe_ret. apply msafe_bind. apply stack_free_ok; [exact Hl|].
+            apply ce_write_ok; [reflexivity|exact Hok|]. intros ow2 Hok2.
+            unfold set_ent. cbn [ce_errout ce_dirty ce_after ce_cores].
+            apply HQ'; [exact Hok2|]. destruct (l_caller lg); [|discriminate Hcs]. destruct ent; reflexivity. }
+    destruct (l_hook lg); exact Hmain.
+Qed.
+
+(* ------------------------------------------------------------------ *)
+(* every operation computes its specification under every adversary   *)
+(* ------------------------------------------------------------------ *)
+Lemma sok_nil ow : sok ow [].
+Proof. split; [constructor|intros x []]. Qed.
+
+Theorem op_safe (o : op) (ow : list id) : safe (op_prog o) ow (fun _ r => r = op_spec o).
+Proof.
+  destruct o as [co ent fs|e fs|lg ent cs fs|cs]; cbn [op_prog op_spec]; unfold run_m.
+  - eapply safe_bind.
+    + apply (core_write_ok co ent fs ow [] (fun _ b _ => b = p_core_line co ent fs)); [apply sok_nil|]. reflexivity.
+    + intros ow' [b s'] Hb. cbn [fst snd safe] in *. subst b. reflexivity.
+  - eapply safe_bind.
+    + apply (core_with_ok e fs ow [] (fun _ b _ => b = p_with e fs)); [apply sok_nil|]. reflexivity.
+    + intros ow' [b s'] Hb. cbn [fst snd safe] in *. subst b. reflexivity.
+  - eapply safe_bind.
+    + apply (log_call_ok lg ent cs fs ow [] (fun _ b _ => b = p_log lg ent cs fs)); [apply sok_nil|]. reflexivity.
+    + intros ow' [b s'] Hb. cbn [fst snd safe] in *. subst b. reflexivity.
+  - eapply safe_bind.
+    + apply (take_stack_ok cs ow [] (fun _ b _ => b = p_take cs)); [apply sok_nil|]. reflexivity.
+    + intros ow' [b s'] Hb. cbn [fst snd safe] in *. subst b. reflexivity.
+Qed.
+
+(* ------------------------------------------------------------------ *)
+(* part 3: the pools under histories and schedules                    *)
+(* ------------------------------------------------------------------ *)
+From Coq Require Import Permutation.
+
+Definition pool_ids (sh : shared) : list id := map b_id (pl_buf (sh_pools sh)).
+Definition pools_clean (sh : shared) : Prop :=
+  forall p o, In o (pool_get (sh_pools sh) p) -> clean p o.
+(* all = every buffer identity owned by some running operation (or leaked by one) *)
+Definition inv (sh : shared) (all : list id) : Prop :=
+  pools_clean sh /\ NoDup (pool_ids sh ++ all) /\ (forall i, In i (pool_ids sh ++ all) -> i < sh_next sh).
+
+Lemma pool_get_set_same P p l : pool_get (pool_set P p l) p = l.
+Proof. destruct p; reflexivity. Qed.
+Lemma pid_eq_dec (p q : pid) : {p = q} + {p <> q}.
+Proof. decide equality. Qed.
+Lemma pool_get_set_other P p q l : p <> q -> pool_get (pool_set P p l) q = pool_get P q.
+Proof. destruct p, q; intros H; try reflexivity; congruence. Qed.
+
+Lemma clean_alloc p i : clean p (alloc p i).
+Proof. destruct p; cbn [clean alloc new_jenc new_slice new_stack j_rbuf j_renc s_elems k_storage]; auto. rewrite repeat_length. lia. Qed.
+
+Lemma remove_nth_in {A} (l : list A) : forall n x, In x (remove_nth n l) -> In x l.
+Proof.
+  induction l as [|y l IH]; intros [|n] x H; cbn [remove_nth] in H; try contradiction.
+  - right. exact H.
+  - destruct H as [<-|H]; [left; reflexivity|right; eapply IH; exact H].
+Qed.
+Lemma remove_nth_perm {A} (l : list A) : forall n x, nth_error l n = Some x -> Permutation l (x :: remove_nth n l).
+Proof.
+  induction l as [|y l IH]; intros [|n] x H; cbn [nth_error remove_nth] in *; try discriminate.
+  - injection H as ->. apply Permutation_refl.
+  - eapply perm_trans; [apply perm_skip; apply IH; exact H|]. apply perm_swap.
+Qed.
+Lemma map_remove_nth {A B} (f : A -> B) (l : list A) : forall n, map f (remove_nth n l) = remove_nth n (map f l).
+Proof. induction l as [|y l IH]; intros [|n]; cbn [remove_nth map]; try reflexivity. f_equal. apply IH. Qed.
+
+Lemma remove_perm_in i (l : list id) : NoDup l -> In i l -> Permutation l (i :: remove Nat.eq_dec i l).
+Proof.
+  induction l as [|x l IH]; intros Hn Hi; [contradiction|].
+  inversion Hn as [|y l' Hnin Hn']; subst. cbn [remove].
+  destruct (Nat.eq_dec i x) as [->|Hne].
+  - rewrite notin_remove; [apply Permutation_refl|exact Hnin].
+  - destruct Hi as [->|Hi]; [congruence|].
+    eapply perm_trans; [apply perm_skip; apply IH; assumption|]. apply perm_swap.
+Qed.
+
+Lemma inv_perm sh a b : Permutation a b -> inv sh a -> inv sh b.
+Proof.
+  intros Hp [Hc [Hn Hb]]. split; [exact Hc|]. split.
+  - eapply Permutation_NoDup; [|exact Hn]. apply Permutation_app_head. exact Hp.
+  - intros i Hi. apply Hb. eapply Permutation_in; [|exact Hi].
+    apply Permutation_app_head. apply Permutation_sym. exact Hp.
+Qed.
+
+Lemma perm_mid (x : id) (A B C D : list id) : Permutation (x :: A ++ B ++ C ++ D) (A ++ B ++ (x :: C) ++ D).
+Proof.
+  rewrite (app_assoc A B (C ++ D)), (app_assoc A B ((x :: C) ++ D)). cbn [app].
+  apply (Permutation_middle (A ++ B) (C ++ D) x).
+Qed.
+
+(* Get: whatever the adversary chooses, the object is clean, a buffer is not owned by
+   anybody, and the invariant holds again with the buffer owned by the taker *)
+Lemma sh_get_inv sh p c pre ow post :
+  inv sh (pre ++ ow ++ post) ->
+  clean p (fst (sh_get sh p c)) /\ fresh p (fst (sh_get sh p c)) ow /\
+  inv (snd (sh_get sh p c)) (pre ++ own_add p (fst (sh_get sh p c)) ow ++ post).
+Proof.
+  intros [Hc [Hn Hb]].
+  assert (Hnew : clean p (alloc p (sh_next sh)) /\ fresh p (alloc p (sh_next sh)) ow /\
+                 inv {| sh_pools := sh_pools sh; sh_next := S (sh_next sh) |}
+                     (pre ++ own_add p (alloc p (sh_next sh)) ow ++ post)).
+  { split; [apply clean_alloc|].
+    assert (Hfr : ~ In (sh_next sh) (pool_ids sh ++ pre ++ ow ++ post)).
+    { intros Hi. apply Hb in Hi. lia. }
+    split.
+    - unfold fresh. destruct p; cbn [buf_id alloc new_buf b_id]; auto.
+      intros Hi. apply Hfr. apply in_or_app. right. apply in_or_app. right. apply in_or_app. left. exact Hi.
+    - unfold own_add. destruct p; cbn [buf_id alloc new_buf b_id];
+        try (split; [exact Hc|split; [exact Hn|intros i Hi; apply Hb in Hi; cbn [sh_next]; lia]]).
+      split; [exact Hc|]. unfold pool_ids in *. cbn [sh_pools sh_next].
+      assert (Hp : Permutation (sh_next sh :: map b_id (pl_buf (sh_pools sh)) ++ pre ++ ow ++ post)
+                               (map b_id (pl_buf (sh_pools sh)) ++ pre ++ (sh_next sh :: ow) ++ post)) by apply perm_mid.
+      split.
+      + eapply Permutation_NoDup; [exact Hp|]. constructor; assumption.
+      + intros i Hi. apply Permutation_sym in Hp. apply (Permutation_in _ Hp) in Hi.
+        destruct Hi as [<-|Hi]; [lia|]. apply Hb in Hi. lia. }
+  destruct c as [|n]; [exact Hnew|].
+  cbn [sh_get]. destruct (nth_error (pool_get (sh_pools sh) p) n) as [o|] eqn:Hnth; [|exact Hnew].
+  cbn [fst snd].
+  assert (Hin : In o (pool_get (sh_pools sh) p)) by (eapply nth_error_In; exact Hnth).
+  split; [apply Hc; exact Hin|].
+  assert (Hclean' : pools_clean {| sh_pools := pool_set (sh_pools sh) p (remove_nth n (pool_get (sh_pools sh) p)); sh_next := sh_next sh |}).
+  { intros q o' Ho'. cbn [sh_pools] in Ho'. destruct (pid_eq_dec p q) as [<-|Hne].
+    - rewrite pool_get_set_same in Ho'. apply Hc. eapply remove_nth_in. exact Ho'.
+    - rewrite pool_get_set_other in Ho' by exact Hne. apply Hc. exact Ho'. }
+  destruct p; unfold fresh, own_add; cbn [buf_id];
+    try (split; [exact I|]; split; [exact Hclean'|]; split; [exact Hn|exact Hb]).
+  (* PBuf *)
+  cbn [pool_get] in Hnth, Hin.
+  assert (Hp0 : Permutation (map b_id (pl_buf (sh_pools sh))) (b_id o :: map b_id (remove_nth n (pl_buf (sh_pools sh))))).
+  { rewrite map_remove_nth. apply remove_nth_perm. apply map_nth_error. exact Hnth. }
+  assert (Hp : Permutation (pool_ids sh ++ pre ++ ow ++ post)
+                 (map b_id (remove_nth n (pl_buf (sh_pools sh))) ++ pre ++ (b_id o :: ow) ++ post)).
+  { unfold pool_ids. eapply perm_trans; [apply Permutation_app_tail; exact Hp0|]. cbn [app]. apply perm_mid. }
+  split.
+  - intros Hi. 
+    assert (Hn2 : NoDup (b_id o :: map b_id (remove_nth n (pl_buf (sh_pools sh))) ++ pre ++ ow ++ post)).
+    { eapply Permutation_NoDup; [|exact Hn]. apply (Permutation_app_tail (pre ++ ow ++ post)) in Hp0. exact Hp0. }
+    inversion Hn2 as [|x l Hnin _]; subst. apply Hnin.
+    apply in_or_app. right. apply in_or_app. right. apply in_or_app. left. exact Hi.
+  - split; [exact Hclean'|]. unfold pool_ids. cbn [sh_pools sh_next pool_set pl_buf]. split.
+    + eapply Permutation_NoDup; [exact Hp|exact Hn].
+    + intros i Hi. apply Hb. eapply Permutation_in; [apply Permutation_sym; exact Hp|exact Hi].
+Qed.
+
+Lemma sh_put_inv sh p o pre ow post :
+  inv sh (pre ++ ow ++ post) -> NoDup ow -> clean p o -> owns p o ow ->
+  inv (sh_put sh p o) (pre ++ own_del p o ow ++ post).
+Proof.
+  intros [Hc [Hn Hb]] Hnow Hcl Hown.
+  assert (Hclean' : pools_clean (sh_put sh p o)).
+  { intros q o' Ho'. unfold sh_put in Ho'. cbn [sh_pools] in Ho'. destruct (pid_eq_dec p q) as [<-|Hne].
+    - rewrite pool_get_set_same in Ho'. destruct Ho' as [<-|Ho']; [exact Hcl|apply Hc; exact Ho'].
+    - rewrite pool_get_set_other in Ho' by exact Hne. apply Hc. exact Ho'. }
+  destruct p; unfold owns, own_del in *; cbn [buf_id] in *;
+    try (split; [exact Hclean'|]; split; [exact Hn|exact Hb]).
+  (* PBuf *)
+  assert (Hp : Permutation (pool_ids sh ++ pre ++ ow ++ post)
+                 ((b_id o :: pool_ids sh) ++ pre ++ remove Nat.eq_dec (b_id o) ow ++ post)).
+  { cbn [app]. apply Permutation_sym.
+    eapply perm_trans; [apply perm_mid|].
+    apply Permutation_app_head. apply Permutation_app_head.
+    change ((b_id o :: remove Nat.eq_dec (b_id o) ow) ++ post) with ((b_id o :: remove Nat.eq_dec (b_id o) ow) ++ post).
+    apply Permutation_app_tail. apply Permutation_sym. apply remove_perm_in; assumption. }
+  split; [exact Hclean'|]. unfold pool_ids, sh_put in *. cbn [sh_pools sh_next pool_set pl_buf pool_get map]. split.
+  - eapply Permutation_NoDup; [exact Hp|exact Hn].
+  - intros i Hi. apply Hb. eapply Permutation_in; [apply Permutation_sym; exact Hp|exact Hi].
+Qed.
+
+Lemma NoDup_app_r {A} (a b : list A) : NoDup (a ++ b) -> NoDup b.
+Proof. induction a as [|x a IH]; cbn [app]; intros H; [exact H|]. inversion H; subst. apply IH. assumption. Qed.
+
+Lemma sh_gc_inv sh all : inv sh all -> inv (sh_gc sh) all.
+Proof.
+  intros [Hc [Hn Hb]]. split; [|split].
+  - intros p o Ho. destruct p; cbn in Ho; contradiction.
+  - unfold pool_ids, sh_gc. cbn. eapply NoDup_app_r. exact Hn.
+  - intros i Hi. apply Hb. apply in_or_app. right. exact Hi.
+Qed.
+
+Lemma inv_NoDup_mid sh pre ow post : inv sh (pre ++ ow ++ post) -> NoDup ow.
+Proof.
+  intros [_ [Hn _]]. apply NoDup_app_r in Hn. apply NoDup_app_r in Hn.
+  induction ow as [|x ow IH]; [constructor|].
+  cbn [app] in Hn. inversion Hn as [|y l Hnin Hn']; subst. constructor.
+  - intros Hi. apply Hnin. apply in_or_app. left. exact Hi.
+  - apply IH. exact Hn'.
+Qed.
+
+(* a safe program, run to completion against any pools satisfying the invariant and any
+   adversary, does not fault, ends in Q, and re-establishes the invariant *)
+Lemma exec_safe {A} (a : act A) : forall ow (Q : list id -> A -> Prop) adv sh pre post,
+  safe a ow Q -> inv sh (pre ++ ow ++ post) ->
+  exists sh' adv' r ow', exec a adv sh = (sh', adv', inl r) /\ Q ow' r /\ inv sh' (pre ++ ow' ++ post).
+Proof.
+  induction a as [r|p k IH|p o k IH|e]; intros ow Q adv sh pre post Hs Hi; cbn [exec safe] in *.
+  - exists sh, adv, r, ow. auto.
+  - set (c := match adv with [] => 0 | c :: _ => c end).
+    destruct (sh_get_inv sh p c pre ow post Hi) as [Hcl [Hfr Hi']].
+    destruct (sh_get sh p c) as [o sh1]. cbn [fst snd] in *.
+    apply (IH o (own_add p o ow) Q (tl adv) sh1 pre post); [apply Hs; assumption|exact Hi'].
+  - destruct Hs as [Hcl [Hown Hk]].
+    apply (IH (own_del p o ow) Q adv (sh_put sh p o) pre post Hk).
+    apply sh_put_inv; try assumption. eapply inv_NoDup_mid. exact Hi.
+  - contradiction.
+Qed.
+
+Definition hist_specs (h : list hitem) : list (sum out fault) :=
+  flat_map (fun it => match it with HOp o => [inl (op_spec o)] | HGC => [] end) h.
+
+Lemma run_hist_ok : forall h adv sh all,
+  inv sh all ->
+  exists sh' adv' all', run_hist h adv sh = (sh', adv', hist_specs h) /\ inv sh' all'.
+Proof.
+  induction h as [|it h IH]; intros adv sh all Hi; cbn [run_hist hist_specs flat_map].
+  - exists sh, adv, all. auto.
+  - destruct it as [o|].
+    + destruct (exec_safe (op_prog o) [] (fun _ r => r = op_spec o) adv sh all [] (op_safe o [])) as [sh1 [adv1 [r [ow1 [He [Hr Hi1]]]]]].
+      { cbn [app]. rewrite app_nil_r. exact Hi. }
+      rewrite He. subst r.
+      destruct (IH adv1 sh1 _ Hi1) as [sh2 [adv2 [all2 [Hrun Hi2]]]].
+      rewrite Hrun. exists sh2, adv2, all2. cbn [app]. auto.
+    + apply (IH adv (sh_gc sh) all). apply sh_gc_inv. exact Hi.
+Qed.
+
+Lemma inv_init : inv sh_init [].
+Proof.
+  split; [|split].
+  - intros p o Ho. destruct p; cbn in Ho; contradiction.
+  - cbn. constructor.
+  - intros i Hi. cbn in Hi. contradiction.
+Qed.
+
+(* non-interference of pool contents: what an operation produces after ANY history, under ANY
+   adversary, is its specification -- a function of the operation alone *)
+Theorem observe_spec h adv o : observe h adv o = inl (op_spec o).
+Proof.
+  unfold observe.
+  destruct (run_hist_ok h adv sh_init [] inv_init) as [sh1 [adv1 [all1 [Hrun Hi1]]]].
+  rewrite Hrun.
+  destruct (exec_safe (op_prog o) [] (fun _ r => r = op_spec o) adv1 sh1 all1 [] (op_safe o [])) as [sh2 [adv2 [r [ow2 [He [Hr _]]]]]].
+  { cbn [app]. rewrite app_nil_r. exact Hi1. }
+  rewrite He. cbn [snd]. subst r. reflexivity.
+Qed.
+
+Theorem history_independent h1 h2 adv1 adv2 o : observe h1 adv1 o = observe h2 adv2 o.
+Proof. rewrite !observe_spec. reflexivity. Qed.
+
+Theorem no_fault_in_history h adv :
+  Forall (fun r => exists x, r = inl x) (snd (run_hist h adv sh_init)).
+Proof.
+  destruct (run_hist_ok h adv sh_init [] inv_init) as [sh1 [adv1 [all1 [Hrun _]]]].
+  rewrite Hrun. cbn [snd]. clear Hrun. unfold hist_specs. induction h as [|[o|] h IH]; cbn [flat_map app]; auto.
+  constructor; [eexists; reflexivity|exact IH].
+Qed.
+
+(* ---- goroutines and schedules ---- *)
+Definition thread_ok (th : thread) (ow : list id) : Prop :=
+  t_fault th = None /\
+  (forall o r, In (o, r) (t_done th) -> r = op_spec o) /\
+  match t_cur th with
+  | None => True
+  | Some (o, a) => safe a ow (fun _ r => r = op_spec o)
+  end.
+
+Definition minv (m : machine) : Prop :=
+  exists ows : list (list id), inv (m_sh m) (concat ows) /\ Forall2 thread_ok (m_threads m) ows.
+
+Lemma Forall2_nth_split {A B} (R : A -> B -> Prop) l1 l2 t x :
+  Forall2 R l1 l2 -> nth_error l1 t = Some x ->
+  exists pre y post, l2 = pre ++ y :: post /\ length pre = t /\ R x y /\
+    forall x' y', R x' y' -> Forall2 R (upd_nth t x' l1) (pre ++ y' :: post).
+Proof.
+  intros HF. revert t. induction HF as [|a b l1 l2 Hab HF IH]; intros t Hn.
+  - destruct t; discriminate.
+  - destruct t as [|t]; cbn [nth_error] in Hn.
+    + injection Hn as ->. exists [], b, l2. cbn [app length upd_nth]. repeat split; auto.
+    + destruct (IH t Hn) as [pre [y [post [-> [Hl [Hr Hu]]]]]].
+      exists (b :: pre), y, post. cbn [app length upd_nth]. repeat split; auto.
+Qed.
+
+Lemma concat_mid {A} (pre : list (list A)) y post : concat (pre ++ y :: post) = concat pre ++ y ++ concat post.
+Proof. rewrite concat_app. cbn [concat]. reflexivity. Qed.
+
+Lemma mstep_inv m s : minv m -> minv (mstep m s).
+Proof.
+  intros [ows [Hi HF]]. destruct s as [t c|]; cbn [mstep].
+  - destruct (nth_error (m_threads m) t) as [th|] eqn:Hth; [|exists ows; auto].
+    destruct (Forall2_nth_split _ _ _ _ _ HF Hth) as [pre [ow [post [-> [Hl [Hok Hupd]]]]]].
+    rewrite concat_mid in Hi.
+    destruct Hok as [Hf [Hd Hc]]. unfold thread_step. rewrite Hf.
+    destruct (t_cur th) as [[o a]|] eqn:Hcur.
+    + destruct a as [r|p k|p x k|e]; cbn [safe] in Hc.
+      * (* the operation returns *)
+        exists (pre ++ ow :: post). cbn [m_sh m_threads]. rewrite concat_mid. split; [exact Hi|].
+        apply Hupd. split; [reflexivity|]. cbn [t_done t_cur]. split; [|exact I].
+        intros o' r' Hin. apply in_app_or in Hin. destruct Hin as [Hin|[Heq|[]]]; [apply Hd; exact Hin|].
+        injection Heq as <- <-. exact Hc.
+      * (* Get *)
+        destruct (sh_get_inv (m_sh m) p c (concat pre) ow (concat post) Hi) as [Hcl [Hfr Hi']].
+        destruct (sh_get (m_sh m) p c) as [x sh1]. cbn [fst snd] in *.
+        exists (pre ++ own_add p x ow :: post). cbn [m_sh m_threads]. rewrite concat_mid. split; [exact Hi'|].
+        apply Hupd. split; [reflexivity|]. cbn [t_done t_cur]. split; [exact Hd|]. apply Hc; assumption.
+      * (* Put *)
+        destruct Hc as [Hcl [Hown Hk]].
+        exists (pre ++ own_del p x ow :: post). cbn [m_sh m_threads]. rewrite concat_mid. split.
+        -- apply sh_put_inv; try assumption. eapply inv_NoDup_mid. exact Hi.
+        -- apply Hupd. split; [reflexivity|]. cbn [t_done t_cur]. split; [exact Hd|exact Hk].
+      * contradiction.
+    + destruct (t_todo th) as [|o r] eqn:Htodo.
+      * exists (pre ++ ow :: post). cbn [m_sh m_threads]. rewrite concat_mid. split; [exact Hi|].
+        apply Hupd. split; [exact Hf|]. split; [exact Hd|]. rewrite Hcur. exact I.
+      * exists (pre ++ ow :: post). cbn [m_sh m_threads]. rewrite concat_mid. split; [exact Hi|].
+        apply Hupd. split; [reflexivity|]. cbn [t_done t_cur]. split; [exact Hd|]. apply op_safe.
+  - exists ows. cbn [m_sh m_threads]. split; [apply sh_gc_inv; exact Hi|exact HF].
+Qed.
+
+Lemma minv_init progs : minv (minit progs).
+Proof.
+  exists (map (fun _ => []) progs). unfold minit. cbn [m_sh m_threads]. split.
+  - replace (concat (map (fun _ : list op => []) progs)) with (@nil id); [apply inv_init|].
+    induction progs as [|p progs IH]; [reflexivity|]. cbn [map concat app]. exact IH.
+  - induction progs as [|p progs IH]; cbn [map]; constructor; [|exact IH].
+    split; [reflexivity|]. cbn [t_done t_cur]. split; [intros o r []|exact I].
+Qed.
+
+Lemma mrun_inv sc : forall m, minv m -> minv (mrun m sc).
+Proof.
+  induction sc as [|s sc IH]; intros m Hm; cbn [mrun fold_left]; [exact Hm|].
+  apply IH. apply mstep_inv. exact Hm.
+Qed.
+
+(* for all programs (one list of operations per goroutine), all schedules (which goroutine
+   performs its next pool interaction, what the pool hands out, when the collector runs):
+   no goroutine ever faults and every completed operation produced its specification *)
+Theorem schedules_thm (progs : list (list op)) (sc : list sched) :
+  Forall (fun th => t_fault th = None /\ forall o r, In (o, r) (t_done th) -> r = op_spec o)
+         (m_threads (mrun (minit progs) sc)).
+Proof.
+  destruct (mrun_inv sc _ (minv_init progs)) as [ows [_ HF]].
+  induction HF as [|th ow ths ows' Hok HF IH]; constructor; [|exact IH].
+  destruct Hok as [Hf [Hd _]]. auto.
+Qed.
+
+(* ------------------------------------------------------------------ *)
+(* part 5: wire                                                       *)
+(* ------------------------------------------------------------------ *)
+Lemma bytes_eqb_refl b : bytes_eqb b b = true.
+Proof. apply bytes_eqb_eq. reflexivity. Qed.
+
+Lemma machine_ok_true h adv p : machine_ok h adv p = true.
+Proof.
+  unfold machine_ok. destruct p as [o|]; [|reflexivity].
+  rewrite !observe_spec. apply bytes_eqb_refl.
+Qed.
+
+Lemma spec_model i : spec i (Model.model i) = true.
+Proof.
+  unfold Model.model, spec. rewrite machine_ok_true. cbn [sx_eqb]. rewrite bytes_eqb_refl. reflexivity.
+Qed.
